@@ -41,6 +41,12 @@ theorem sequential_transparent (E : Env W Q A U K) (hk : KeyDetermines E) (w : W
 theorem options_key_covers : (lookupOptionFields.all fun f => cacheKeyFields.contains f) = true ∧ optionsUUIDFromString = true := by
   decide
 
+/-- Regenerated obligation: the printed form the key hashes names the time bounds by their instants (UTC, nanoseconds).
+    Printed in the bound's own zone (the pinned tree; 2a32d54) two instants whose clocks read alike in zones one and two
+    seconds east of Greenwich had one key — `KeyDetermines` was false there, and the memoizer answered with the other
+    window's result. -/
+theorem options_key_names_instants : optionsBoundsAsInstants = true := by decide
+
 /-- Regenerated obligation: every argument of a memoizing method is part of its key (the options either
     as given or, for Exist which takes none, the default ones). -/
 theorem arguments_in_key :
@@ -112,6 +118,7 @@ end BW.Props.C19
 
 #print axioms BW.Props.C19.sequential_transparent
 #print axioms BW.Props.C19.options_key_covers
+#print axioms BW.Props.C19.options_key_names_instants
 #print axioms BW.Props.C19.arguments_in_key
 #print axioms BW.Props.C19.methods_keyed_apart
 #print axioms BW.Props.C19.protections_in_place
